@@ -340,14 +340,15 @@ UPTIME_RECORDS = {
 }
 UPTIME_LEAN = "Q × Int × Int × Int"
 TARGETS.append(dict(
-    module="pyp0f.fingerprint.results.uptime", func="Uptime.__post_init__", file="UptimePostInit", lean="uptimePostInit",
+    module="pyp0f.fingerprint.results.uptime", func="Uptime.__post_init__", file="UptimePostInit", lean="uptimePostInit", divok=True,
     import_="P0f.Generated.Logic.RoundFrequency\nimport P0f.Model.UptimeFields",
     pyparams=["self", "timestamp"], params=[("timestamp", "Nat"), ("raw_frequency", "Q")], ret="Rec:UptimeV", lean_ret=UPTIME_LEAN,
     env={"timestamp": ("timestamp", "Nat"), "self.raw_frequency": ("raw_frequency", "Q")},
     assignable=("self.frequency", "self.total_minutes", "self.modulo_days"),
     calls={"round_frequency": call_gen("P0f.Gen.roundFrequency", ["Q"], "Int")},
     end=lambda fn, env: "(raw_frequency, " + ", ".join(as_int(*env["self." + f]) for f in ("frequency", "total_minutes", "modulo_days")) + ")",
-    alias="def uptimePostInit (timestamp : Nat) (raw_frequency : Q) : " + UPTIME_LEAN + " := P0f.uptimePostInit timestamp raw_frequency\n",
+    alias="def uptimePostInit (timestamp : Nat) (raw_frequency : Q) : " + UPTIME_LEAN + " := P0f.uptimePostInit timestamp raw_frequency\n"
+          "def uptimePostInit_divok (timestamp : Nat) (raw_frequency : Q) : Bool := true\n",
 ))
 
 
@@ -389,7 +390,8 @@ def _uptime_pre(stmts):
 
 UPRES_LEAN = "Option Int × Option (" + UPTIME_LEAN + ")"
 TARGETS.append(dict(
-    module="pyp0f.fingerprint.uptime", func="fingerprint_uptime", file="FingerprintUptime", lean="fingerprintUptime",
+    module="pyp0f.fingerprint.uptime", func="fingerprint_uptime", file="FingerprintUptime", lean="fingerprintUptime", divok=True,
+    divok_callees=("uptimePostInit",),
     import_="P0f.Generated.Logic.UptimePostInit\nimport P0f.Generated.Logic.ValidUptime\nimport P0f.Model.UptimeFields",
     pyparams=["packet", "last_packet_signature", "options"],
     params=[("o", "UpOpts"), ("isFragment", "Bool"), ("t", "Nat"), ("tsPrev", "Nat"), ("tsNow", "Nat"), ("now", "Int"), ("received", "Int")],
@@ -407,7 +409,8 @@ TARGETS.append(dict(
            "get_unix_time_ms": bound([], ("now", "Int")),
            "UptimeResult": _uptime_result, "Uptime": _uptime_ctor},
     alias="def fingerprintUptime (o : UpOpts) (isFragment : Bool) (t tsPrev tsNow : Nat) (now received : Int) : Option (" + UPRES_LEAN
-          + ") := P0f.fingerprintUptimeFields o isFragment t tsPrev tsNow (now - received)\n",
+          + ") := P0f.fingerprintUptimeFields o isFragment t tsPrev tsNow (now - received)\n"
+          "def fingerprintUptime_divok (o : UpOpts) (isFragment : Bool) (t tsPrev tsNow : Nat) (now received : Int) : Bool := true\n",
 ))
 
 # ---------------------------------------------------------------------------------------------- C08
